@@ -73,10 +73,11 @@ type c13Case struct {
 }
 
 type c13PyErr struct {
-	Class  string `json:"class"`
-	Path   string `json:"path"`
-	Offset int64  `json:"offset"`
-	Msg    string `json:"msg"`
+	Class   string `json:"class"`
+	Path    string `json:"path"`
+	PathHex string `json:"path_hex"`
+	Offset  int64  `json:"offset"`
+	Msg     string `json:"msg"`
 }
 
 type c13PyNode struct {
@@ -1090,7 +1091,7 @@ func c13Judge(r *vh.Result, c *c13Case, out *c13PyOut, want map[string]*c13Want,
 	special := map[string]string{}
 	for p, w := range want {
 		if w.Type == "fifo" || w.Type == "socket" {
-			special[c13unhexPath(p)] = w.Type
+			special[p] = w.Type
 		}
 	}
 	if !out.OK {
@@ -1105,12 +1106,18 @@ func c13Judge(r *vh.Result, c *c13Case, out *c13PyOut, want map[string]*c13Want,
 			}
 		}
 		first := out.Errors[0]
+		for _, e := range out.Errors { // classify by the first error that is not about name order
+			if e.Class != "order/filenames-unsorted" {
+				first = e
+				break
+			}
+		}
 		switch {
 		case onlyUnsorted && strings.HasPrefix(c.Source, "tar-"):
 			r.Fail("predicate", "tarstream/unsorted-children", fmt.Sprintf("%s: archive from a tar stream keeps the stream's child order; casync requires ascending names: %s", what, first.Msg), c13Slim(c))
 			// the rest of the archive is still compared below
-		case first.Class == "order/entry-expected" && special[first.Path] != "":
-			r.Fail("predicate", "tar/unsupported-node-dangling-filename", fmt.Sprintf("%s: a %s in the source leaves a FILENAME element without an entry in the archive (%s at offset %d)", what, special[first.Path], first.Msg, first.Offset), c13Slim(c))
+		case first.Class == "order/entry-expected" && special[first.PathHex] != "":
+			r.Fail("predicate", "tar/unsupported-node-dangling-filename", fmt.Sprintf("%s: a %s in the source leaves a FILENAME element without an entry in the archive (%s at offset %d)", what, special[first.PathHex], first.Msg, first.Offset), c13Slim(c))
 			return
 		default:
 			r.Fail("predicate", "archive/"+first.Class, fmt.Sprintf("%s: validator rejects the archive: %s (%s, offset %d)", what, first.Msg, first.Path, first.Offset), c13Slim(c))
